@@ -836,6 +836,7 @@ class FactBase:
         self.records = {}
         self.enums = {}
         self.vars = {}
+        self.templates = {}  # (qualified name, file, line) of a namespace-scope function template -> instantiations seen
         self.units = []
         self._by_qn = None
         self._overriders = None
@@ -865,6 +866,9 @@ class FactBase:
                 self.vars[n] = dict(name=n, t=S[raw['t']], file=S[raw['file']], line=raw['line'],
                                     tls=raw.get('tls', 0), const=raw.get('const', 0), member=raw.get('member', 0),
                                     staticlocal=raw.get('staticlocal', 0), v=raw.get('v'))
+        for raw in d.get('templates', []):
+            k = (S[raw['name']], S[raw['file']], raw['line'])
+            self.templates[k] = self.templates.get(k, 0) + raw.get('inst', 0)
         self.units.append((rel(unit), cfgid, nf))
         self._by_qn = None
         return self
